@@ -602,6 +602,12 @@ func TestProp(t *testing.T) {
 	r.Rule("rapid-generated clause sets for k/1, k/2, j/2: heads and body-goal arguments with atoms, integers, floats, double-quoted strings, nested compounds (same functor at several arities), proper and partial lists of length 0-6, repeated and singleton variables; bodies with 1-4 goals (also left-nested conjunctions), variable goals, cut, \\+, if-then-else, top-level disjunctions (2-3 alternatives), a disjunction whose left operand is a variable; per clause a set of bindings in force at assert time (data terms, strings, partial lists, and for goal variables callable terms including an if-then term). Every set is added through Exec text and through assertz (or asserta in reverse order) under the bindings. Oracles on both paths: clause/2 lists exactly the clauses added, in order, as variants of the source term with the bindings applied; probe queries (all-variable and partially instantiated) answer as the reference machine does on those terms; the compiled instruction list of every clause (hook VerifClauses) decompiles to the source clause (same head arguments, goals in order, variable sharing) and its stored term is the source term; retract((H:-B)) enumerates and removes the same clauses in order. Shard 0 also validates every clause of bootstrap.pl against its compiled form. Non-trivial: a clause with a body goal and a compound/list head argument and at least one variable. Distinct by case.",
 		"the decompiler (props/c10/decompile.go) over the VerifClauses hook; the reference machine for behaviour",
 		"the splitting of top-level disjunctions into one compiled clause per disjunct is the compiler's documented design and is mirrored by the expected form")
+	if r.Shard() == 0 {
+		if err := diff.OracleSelfTest(); err != nil {
+			t.Fatalf("%v", err)
+		}
+		r.LabelN("oracle_self_test_examples", ref.NExamples())
+	}
 	r.Regress(t)
 	if r.Failed() {
 		return
